@@ -22,7 +22,7 @@ EXHAUSTIVE = {"quick": ["all strings len<=4 over ACD / AWY / CDY: kdtree k=1..3,
                            "all strings len<=4 over ACD / AWY / CDY: hash_based k=2", "all len<=2 over ACD: hash_based k=3",
                            "radius-boundary pairs for k=1..12",
                            "every string len<=3 over AC paired with each of its one-edit variants"]}
-REQUIRE = {"kdtree_calls": 40, "hash_based_calls": 29, "hash_based_k>=2": 5, "kdtree_k>=2": 10,
+REQUIRE = {"big_inputs": 1, "residue_count_256_cases": 1, "kdtree_calls": 40, "hash_based_calls": 29, "hash_based_k>=2": 5, "kdtree_k>=2": 10,
            "radius_boundary_cases": 8, "inputs_with_indel_neighbour_pairs": 20, "inputs_with_d0_pairs": 10,
            "inputs_empty-string": 3, "engine_pairs_compared": 50, "suite_contract_evaluations": 15, "triplets_compared": 1000}
 SHARDS = {"quick": 6, "thorough": 16}
